@@ -557,8 +557,8 @@ def _norm_compression_tifffile(
         compression = kw.pop("compress", "ADOBE_DEFLATE")
         assert isinstance(compression, str)
 
-    if compressionargs is None:
-        compressionargs = {}
+    # never the caller's own dict: "level" & co are filled in below
+    compressionargs = {} if compressionargs is None else dict(compressionargs)
 
     remap = {k.upper(): k for k in kw}
 
@@ -642,8 +642,8 @@ def save_cog_with_dask(
 
     from ..xr import ODCExtensionDa
 
-    if aws is None:
-        aws = {}
+    # options are pop()-ed below, work on a copy of the caller's dict
+    aws = {} if aws is None else dict(aws)
 
     upload_params = {k: kw.pop(k) for k in ["writes_per_chunk", "spill_sz"] if k in kw}
     upload_params.update(
